@@ -10,6 +10,7 @@ import Mathlib.Logic.Function.Iterate
 import TjdModel.Autojac.Heap
 import TjdModel.Autojac.MtlSpec
 import TjdLemmas.C06Lemmas
+import TjdLemmas.ExtraLemmas
 import TjdProps.C01
 namespace Tjd.Props.C06
 open Tjd Tjd.Autojac Tjd.Props.C01
@@ -114,5 +115,19 @@ theorem accum_spec (old : Option (Vec α)) (v : Vec α) :
   rfl
 
 end abstract
+
+section aliased
+variable {α : Type} [Add α]
+
+/-- two parameters whose `.grad` is ONE tensor (the user made them share a common accumulator): a call that requests both
+    adds BOTH contributions to it, one after the other, and each of the two `.grad` fields shows the total — no update
+    is lost, whatever the two values are -/
+theorem aliased_grads_receive_both (H : Heap α) (a b : Key) (hab : a ≠ b) (s sa sb : Sid) (old ga gb : Vec α)
+    (ha : H.grad a = some (s, old)) (hb : H.grad b = some (s, old)) :
+    (accumulateH true [(a, sa, ga), (b, sb, gb)] H).grad a = some (s, vadd (vadd old ga) gb) ∧
+    (accumulateH true [(a, sa, ga), (b, sb, gb)] H).grad b = some (s, vadd (vadd old ga) gb) := by
+  exact aliased_accumulate_both H a b hab s sa sb old ga gb ha hb
+
+end aliased
 
 end Tjd.Props.C06
